@@ -36,7 +36,7 @@ RECVS = ["fresh", "lazyrows", "lazycols+2", "lazycols-1", "lazychain", "ufunc", 
 FLOOR_TAGS = ["recv:" + r_ for r_ in RECVS] + ["mask-as-list", "r:int", "r:slice+1", "r:slice+k", "r:slice-", "r:list", "r:array", "r:mask", "r:ell",
               "c:none", "c:int+", "c:int-", "c:slice+1", "c:slice+k", "c:slice-",
               "must-refuse", "sel-has-empty-row", "ellipsis-padded", "e-first", "e-last", "e-mid", "e-consec", "allempty", "norows"]
-FLOOR_MONITORS = ["c02:model-compare", "c02:refusal", "c02:arguments-unchanged", "c02:after-refusal", "c02:index-object-reused"]
+FLOOR_MONITORS = ["c02:model-compare", "c02:refusal", "c02:arguments-unchanged", "c02:after-refusal", "c02:index-object-reused", "c02:refusal-on-derived"]
 FP_STRICT = True       # a floating-point event inside the library that the dense computation does not have is a violation (shard.FpMonitor)
 N_RANDOM = {"quick": 12000, "thorough": 400000}
 
@@ -174,6 +174,18 @@ def _subclass():
     return _SUB[0]
 
 
+PRODUCERS = [
+    ("sort()", lambda x: x.sort(axis=-1)),
+    ("np.where(column mask, x, x)", lambda x: np.where(np.ones((len(x), 1), dtype=bool), x, x)),
+    ("np.zeros_like", lambda x: np.zeros_like(x)),
+    ("np.negative", lambda x: np.negative(x)),
+    ("astype(float64)", lambda x: x.astype(np.float64)),
+    ("np.cumsum", lambda x: np.cumsum(x, axis=-1)),
+    ("x[...]", lambda x: x[...]),
+    ("np.concatenate([x])", lambda x: np.concatenate([x])),
+]
+
+
 def decode(v):
     v = int(v) - 1
     return (v // 1000, v % 1000)
@@ -238,6 +250,17 @@ def run(case):
         if out.ok:
             return violated("index %s addresses a non-existing row/column and must be refused, but returned %s" % (short(idx), short(got)),
                             tags, got=got, expected="refusal")
+        # arrays of the same shape that come out of the library's own producers refuse the same index (no producer hands out an array with its checks off)
+        if recv != "unsafe" and len(lens):
+            CTX.tick("c02:refusal-on-derived")
+            for pname, prod in PRODUCERS:
+                d_ = attempt(prod, ra)
+                if not d_.ok or not isinstance(d_.value, CTX.lib.RaggedArray) or np.asarray(d_.value.lengths).tolist() != list(lens):
+                    continue
+                o_ = attempt(lambda: observe(d_.value[idx]))
+                if o_.ok:
+                    return violated("index %s must be refused (it addresses a non-existing row/column of rows with lengths %s) and is refused on the array itself, but %s of that array answers %s" % (
+                        short(idx), lens, pname, short(o_.value[1])), tags + ["refusal-lost-on-derived"], got=o_.value, expected="refusal")
         # a refusal leaves no trace: the array reads as before and answers a legal index right afterwards
         CTX.tick("c02:after-refusal")
         after = attempt(peek, ra)
@@ -503,6 +526,10 @@ def random_selector(rng, n, allow_oob=True):
     if k == "mask":
         p = rng.choice([0.0, 0.5, 0.5, 1.0])
         m = [rng.random() < p for _ in range(n)]
+        if allow_oob and rng.random() < 0.06:
+            # a mask that is too short, or too long with only False in the surplus: not a mask of this array (numpy refuses it)
+            m = m[:-1] if (n >= 2 and rng.random() < 0.5) else m + [False] * rng.randint(1, 2)       # (an EMPTY boolean array is read as "select nothing", like [])
+            return np.array(m, dtype=bool)
         return m if (n and rng.random() < 0.3) else np.array(m, dtype=bool)     # a python list of bools is a mask too (as in numpy)
     if k == "empty":
         return rng.choice([[], np.zeros(0, dtype=np.int64)])
